@@ -2,7 +2,11 @@ package fsnotify
 
 // C19 — recursive watches: true paths, exactly their own tree.
 
-import "golang.org/x/sys/unix"
+import (
+	"errors"
+
+	"golang.org/x/sys/unix"
+)
 
 type verifRecEnt struct {
 	wd   uint32
@@ -126,8 +130,24 @@ func H_rec_remove() {
 		verifK.marks[i] = verifMark{state: kLive, wd: int32(verifRecT[i].wd), ino: i}
 	}
 	roots := [...]string{"/r", "/r2"}
-	root := roots[verifChoose("root", len(roots))]
-	err := w.Remove(root + "/...")
+	ri := verifChoose("root", len(roots))
+	root := roots[ri]
+	spelled := root + "/..."
+	if verifChoose("readded-plain", 2) == 1 {
+		// the root was added again under its plain name: it stays the root of a recursive watch
+		verifK.nIno = verifNRecT
+		for i := 0; i < verifNRecT; i++ {
+			if verifRecT[i].path == root {
+				verifK.addResolve = i
+			}
+		}
+		verifAssert(w.Add(root) == nil, "Add of the root of a recursive watch under its plain name")
+		if verifChoose("remove-plain", 2) == 1 {
+			spelled = root
+		}
+		verifReach("rec-remove-readded")
+	}
+	err := w.Remove(spelled)
 	verifAssert(err == nil, "removing a recursive root succeeds")
 	for i := 0; i < verifNRecT; i++ {
 		e := verifRecT[i]
@@ -319,4 +339,31 @@ func H_rec_order() {
 	}
 	verifAssert(w.Close() == nil, "Close")
 	verifReach("rec-order")
+}
+
+// C07 for recursive watches: a recursive Add and a Remove of the same root from
+// two goroutines are atomic with respect to each other - the outcome is that of
+// one of the two orders.
+func H_conc_rec_add() {
+	verifKReset()
+	enableRecurse = true
+	w := verifNewInotifyN(0, 1, 1)
+	verifK.nIno = 8
+	verifK.walk = []verifWalkEnt{{"/r", true}, {"/r/a", true}, {"/r/b", true}}
+	n := 0
+	verifAddSeq = func() int { n++; return n - 1 }
+	ra, rr := make(chan error, 1), make(chan error, 1)
+	go func() { ra <- w.Add("/r/...") }()
+	go func() { rr <- w.Remove("/r/...") }()
+	ea, er := <-ra, <-rr
+	verifAssert(ea == nil, "the recursive Add succeeds")
+	l := w.WatchList()
+	if er == nil {
+		verifAssert(len(l) == 0, "Remove succeeded, so it ran after the whole recursive Add: nothing of the tree may stay watched (Add and Remove of a tree are atomic)")
+		verifReach("conc-rec-add-then-remove")
+	} else {
+		verifAssert(errors.Is(er, ErrNonExistentWatch), "Remove before the Add fails with ErrNonExistentWatch")
+		verifAssert(len(l) == 3, "Remove failed, so it ran before the Add: the whole tree is watched")
+		verifReach("conc-rec-remove-then-add")
+	}
 }
